@@ -2,6 +2,7 @@ import NTV.Model.Resultant
 import NTV.Proofs.Lemmas.ResRatProofs
 import NTV.Proofs.Lemmas.SubresStep
 import NTV.Proofs.Lemmas.SubresLoop
+import NTV.Proofs.Lemmas.Subres2Loop
 /-! # C04 — the resultant equals the Sylvester determinant.
 `Polynomial.resultant` is Mathlib's determinant of the Sylvester matrix. -/
 open Polynomial
@@ -68,5 +69,29 @@ theorem smart_is_sylvester_partial (f g : List Int) (hf : f ≠ []) (hg : g ≠ 
 
 /-- non-vacuity: the exactness flag is true on a concrete degree-gap input (the third unit test) -/
 example : resultantSmartE [2, 0, 1, 0, 1] [1, 0, 1] = some (.ok (4, true)) := by decide +kernel
+
+/-- the exactness flag of `resultant_smart` is always set on canonical input: every truncated division
+of the subresultant recurrence is exact (the fundamental theorem of subresultant pseudo-remainder
+sequences, proved in `Proofs/Lemmas/Subres0Det … Subres2Loop`) — FULL -/
+theorem smart_flag (f g : List Int) (hcf : Canon f) (hcg : Canon g) (v : Int) (ok : Bool)
+    (h : resultantSmartE f g = some (.ok (v, ok))) : ok = true :=
+  resultantSmart_flag f g hcf hcg v ok h
+
+/-- C04 for the integer routine `resultant_smart` (subresultant PRS) — FULL: for all non-zero
+canonical f, g ∈ ℤ[x] the model neither panics nor runs out of fuel, all its divisions are exact, and the
+returned value IS the determinant of the Sylvester matrix. -/
+theorem smart_is_sylvester (f g : List Int) (hf : f ≠ []) (hg : g ≠ []) (hcf : Canon f) (hcg : Canon g) :
+    resultantSmartE f g = some (.ok (resultant (toPoly f) (toPoly g), true)) := by
+  obtain ⟨v, hv⟩ := resultantSmart_total f g hcf hcg
+  rw [hv, resultantSmart_exact f g hf hg hcf hcg v hv]
+
+/-- the same for the total wrapper `resultantSmart` -/
+theorem smart_value_is_sylvester (f g : List Int) (hf : f ≠ []) (hg : g ≠ []) (hcf : Canon f) (hcg : Canon g) :
+    resultantSmart f g = (resultant (toPoly f) (toPoly g), true) := by
+  simp [resultantSmart, smart_is_sylvester f g hf hg hcf hcg]
+
+/-- non-vacuity / instance: Knuth's example (a defective sequence is the third unit test above) -/
+example : resultantSmartE [-5, 2, 8, -3, -3, 0, 1, 0, 1] [21, -9, -4, 0, 5, 0, 3] = some (.ok (260708, true)) := by
+  decide +kernel
 
 end NTV.C04
